@@ -9,7 +9,7 @@ extra = []
 if "--extra" in sys.argv:
     extra = sys.argv[sys.argv.index("--extra") + 1].split(",")
 src = open(os.path.join(ROOT, "lean", "BoolFn", "Props", pid + ".lean")).read()
-names = [f"BoolFn.{pid}.{m}" for m in re.findall(r"^theorem\s+([A-Za-z0-9_'.]+)", src, re.M)]
+names = [f"BoolFn.{pid}.{m}" for m in re.findall(r"^theorem\s+([^\s:({\[]+)", src, re.M)]
 ob = json.load(open(os.path.join(ROOT, "obligations.json")))
 entry = ob.get(pid, {})
 body = sys.stdin.read().strip()
